@@ -165,10 +165,14 @@ def ws_symbols(i1: int, q: int, qcase: int) -> bool:
         p2.var("Mv1x")
         p2.var("zeta")
         p2.var("mv1")  # same name as a member of m1: both must be returned
+        gen.add_type(p2, 5, 0, False)
+        p2._open("interface", "t5", "interface t5")  # constructor idiom: a generic named like the type, both are members
+        p2.stmt("module procedure mk5")
+        p2.end(0)
         p2.end(0)
         l2, _ = gen.layout(p2, Layout())
         srv = ws.reset(SRV, {PATH: "\n".join(lines) + "\n", ws.ROOT + "/m2.f90": "\n".join(l2) + "\n"})
-        members = [("m1", None), ("mv1", "m1"), ("t1", "m1"), ("t3", "m1")] + ([("g2", "m1")] if q % 2 else []) + [("s1", "m1"), ("s2", "m1"), ("s7", None), ("m2", None), ("Mv1x", "m2"), ("zeta", "m2"), ("mv1", "m2")]
+        members = [("m1", None), ("mv1", "m1"), ("t1", "m1"), ("t3", "m1")] + ([("g2", "m1")] if q % 2 else []) + [("s1", "m1"), ("s2", "m1"), ("s7", None), ("m2", None), ("Mv1x", "m2"), ("zeta", "m2"), ("mv1", "m2"), ("t5", "m2"), ("t5", "m2")]
         names = sorted({n[0].lower()[i:i + k] for n in members for k in (1, 2, 3) for i in range(len(n[0]) - k + 1)})
         # regex metacharacters are ordinary characters of a query: none of them occurs in a name
         queries = names + ["qq", "m1x", "#", "s9", ".", "$", "^m", "m*", "[a-z]", "m.1", "m1|m2", "t1(", "\\w", "s?"]
@@ -276,4 +280,55 @@ def symbol_lines(l0: int, d1: int, d2: int, d3: int, d4: int) -> bool:
             ("s", 12, "m", l0 + d1 + d2 + d3 - 1, l0 + d1 + d2 + d3 + d4 - 1)]
     ok = got == want
     tock("symbol_lines")
+    return ok
+
+
+# ------------------------------------------------------------------------------------ outline after single-line edits
+SRV_INC = ws.make_server(("--incremental_sync", "--disable_autoupdate"))
+SRV_REF = ws.make_server(("--incremental_sync", "--disable_autoupdate"))
+
+
+def edited_outline(i1: int, ln: int, kind: int) -> bool:
+    """incremental sync: one single-line edit of a generated program (kind 0: '!' inserted in column 1, i.e. the
+    statement becomes a comment; 1: the '!' removed again; 2: a blank inserted; 3: the first non-blank character
+    deleted) at every line: the outline afterwards equals the outline a fresh server gives for the edited text
+    pre: 0 <= i1 < NE and 0 <= ln <= 70 and 0 <= kind <= 3 and (i1 + ln) % NPART == PART
+    post: _
+    """
+    tick("edited_outline")
+    i1, ln, kind = conc(i1, 0, NE - 1), conc(ln, 0, 70), conc(kind, 0, 3)
+    ok = True
+    with NoTracing():
+        p = build(i1, -1, 1, True, 0, False, 2)
+        lines, _ = gen.layout(p, Layout())
+        if ln < len(lines):
+            text = "\n".join(lines) + "\n"
+            srv = ws.reset(SRV_INC, {PATH: text})
+            uri = "file://" + PATH
+
+            def change(sc, ec, new):
+                srv.handle({"jsonrpc": "2.0", "method": "textDocument/didChange", "params": {"textDocument": {"uri": uri}, "contentChanges": [
+                    {"range": {"start": {"line": ln, "character": sc}, "end": {"line": ln, "character": ec}}, "text": new}]}})
+
+            cur = list(lines)
+            first = len(cur[ln]) - len(cur[ln].lstrip())
+            if kind in (0, 1):
+                change(0, 0, "!")
+                cur[ln] = "!" + cur[ln]
+                if kind == 1:
+                    change(0, 1, "")
+                    cur[ln] = cur[ln][1:]
+            elif kind == 2:
+                change(0, 0, " ")
+                cur[ln] = " " + cur[ln]
+            elif len(cur[ln].strip()) > 0:
+                change(first, first + 1, "")
+                cur[ln] = cur[ln][:first] + cur[ln][first + 1:]
+            got = ws.request(srv, "textDocument/documentSymbol", PATH, 0, 0)
+            ref = ws.reset(SRV_REF, {PATH: "\n".join(cur) + "\n"})
+            want = ws.request(ref, "textDocument/documentSymbol", PATH, 0, 0)
+            if got != want:
+                FAIL.append(f"after edit kind {kind} on line {ln} ({lines[ln]!r}): outline {got} fresh {want}")
+                ok = False
+    tock("edited_outline")
     return ok
